@@ -178,9 +178,9 @@ pub fn run(run: &Run) -> i32 {
                 shapes.push((r, n));
             }
         }
-        shapes.extend([(3, 4), (4, 3), (2, 6), (4, 4)]);
+        shapes.extend([(3, 4), (4, 3), (2, 6), (4, 4), (3, 5), (5, 3), (4, 5), (5, 4)]);
         if run.thorough() {
-            shapes.extend([(3, 5), (5, 3), (4, 5), (5, 4), (3, 6)]);
+            shapes.extend([(3, 6), (6, 3), (2, 9)]);
         }
         for (r, n) in shapes {
             let a = par_fold(1u64 << (r * n), |mask, a| check_graph(&Small::from_mask(r, n, mask), "dense", a));
@@ -210,12 +210,33 @@ pub fn run(run: &Run) -> i32 {
         }
         let a = par_items(&fam, |m, a| check_graph(m, "family", a));
         acc = acc.merge(a);
+        // every 5x5 supergraph of a fixed cycle through Col(0) / Row(0): all labellings of the
+        // remaining entries (side cycles on the arms, chords, pendant parts in every combination)
+        let skeletons: Vec<Vec<(usize, usize)>> = vec![
+            vec![(0, 0), (0, 2), (4, 2), (4, 4), (1, 4), (1, 0)],                 // 6-cycle
+            vec![(0, 0), (0, 1), (1, 1), (1, 2), (2, 2), (2, 3), (3, 3), (3, 0)], // 8-cycle
+        ];
+        for sk in skeletons {
+            let fixed: u64 = sk.iter().fold(0, |a, &(i, j)| a | (1u64 << (i * 5 + j)));
+            let free: Vec<usize> = (0..25).filter(|b| (fixed >> b) & 1 == 0).collect();
+            let nfree = if run.thorough() { free.len() } else { free.len().min(17) };
+            let a = par_fold(1u64 << nfree, |x, a| {
+                let mut mask = fixed;
+                for (k, &b) in free.iter().take(nfree).enumerate() {
+                    if (x >> k) & 1 == 1 {
+                        mask |= 1u64 << b;
+                    }
+                }
+                check_graph(&Small::from_mask(5, 5, mask), "skeleton5x5", a);
+            });
+            acc = acc.merge(a);
+        }
     }
     finish(
         run,
         acc,
         Coverage {
-            rule: "every binary matrix of every listed shape (all masks) x every row and column root x bounds {0..10,12,16,MAX}; families: 2L-cycle with a pendant path of 1..8 edges at every attachment point (L=2..6), theta graphs (two cycles sharing a path), complete bipartite minus a matching up to 12x12. Reference: BFS distances; local girth = min over incident edges e of 1 + dist in G-e. Non-trivial = graph contains a cycle; forests and graphs with a cycle-free node attached to a cyclic component are counted separately.".into(),
+            rule: "every binary matrix of every listed shape (all masks) x every row and column root x bounds {0..10,12,16,MAX}; families: 2L-cycle with a pendant path of 1..8 edges at every attachment point (L=2..6), theta graphs (two cycles sharing a path), complete bipartite minus a matching up to 12x12; every 5x5 supergraph of a fixed 6-cycle / 8-cycle through node 0 (all settings of the first 17 (thorough: all) free entries). Reference: BFS distances; local girth = min over incident edges e of 1 + dist in G-e. Non-trivial = graph contains a cycle; forests and graphs with a cycle-free node attached to a cyclic component are counted separately.".into(),
             exhaustive: true,
             extra: serde_json::Map::new(),
             graph: None,
